@@ -217,4 +217,10 @@ example : WalkAbs.Sorted ([([1,3,1,1], Val.int 1), ([1,3,1,2], Val.int 2), ([1,3
     ∧ PrefixFree [[1,3,3],[1,3,1],[1,3,2]] ∧ ({ rows := some 1, cut := 2, deep := true } : BulkPolicy).deep = true := by
   refine ⟨by unfold WalkAbs.Sorted; decide, by unfold PrefixFree; decide, rfl⟩
 
+
+/-- the bulk fetcher has the shape the model renders (generated from the AST): `bulk_size` repetitions
+    asked for first, a response shorter than one repetition completed by requests for the missing
+    columns with max-repetitions 1 until one returns nothing, per-column successor check -/
+theorem C02_fetcher_shape : Snmp.Gen.bulkFetcherShape = true := by decide
+
 end Snmp.Props.C02
